@@ -1,9 +1,12 @@
 """C01 - stable failure surface and termination for arbitrary bytes.
 
-Space I, deviation-bounded mutation: seeds G (one small generated document per format, verif.props.c01_seeds) and F (the
-fixtures); every case applies ONE deviation to one seed and feeds the bytes to one extractor through one seam.
+Space I, deviation-bounded mutation: seeds G (one small generated document per format, verif.props.c01_seeds - among them three
+PDFs encrypted for the empty password: RC4-128, AES-128, AES-256), F (the fixtures) and T (verif.props.c01_text: 18 carriers x 7
+character classes - documents whose extracted text holds a Latin-1 / cp1252-only / BMP / astral character or a lone surrogate);
+every case applies ONE deviation to one seed and feeds the bytes to one extractor through one seam.
 
-    case = {"src": "G:<name>" | "F:<relative fixture path>", "to": extractor key, "seam": seam, "op": [kind, args...]}
+    case = {"src": "G:<name>" | "F:<relative fixture path>" | "T:<carrier>/<class>", "to": extractor key, "seam": seam,
+            "op": [kind, args...], optional "stdout": encoding of the CLI's stdout (default utf-8)}
 
 Operators (kind):
   id                                  unmutated (cross-format routing: every seed x each of the 21 extractors)
@@ -17,11 +20,21 @@ Operators (kind):
   brace rm|dup k                                          RTF: k-th brace removed / duplicated
   imgseg k mode                                           length field of segment / chunk k of the embedded JPEG / PNG
   tarsize i value | 7z opt value | mboxvar sep flb        forged archive fields, mbox separator variants
+  pdfenc [field, value] ([field, value])                  encrypted-PDF seeds: one (thorough: also every two) forged field(s) of the
+                                                          encryption dictionary / crypt filter / ciphertexts over the value lattices of
+                                                          verif.props.c01_pdfenc.FIELDS (/V /R /Length /CF /CFM /StmF /StrF /O /U /P /ID
+                                                          /EncryptMetadata /Filter /SubFilter, stream and string ciphertext cut / padded
+                                                          wrongly), /O and /U recomputed so that the empty password still opens the file
 Seams: direct = list(extractor(BytesIO(data), path)); read_file (temp file); zipmember (read_archive of a ZIP holding the bytes);
-eml (attachment -> iterate_supported_attachments); cli / cli-json / cli-json-unit (cli.main with captured stdout / stderr).
+eml (attachment -> iterate_supported_attachments); cli / cli-json / cli-json-unit / cli-json-binary / cli-json-unit-binary /
+cli-binary (cli.main with every option combination).  The CLI runs with stdout / stderr as the interpreter provides them: text
+layers over byte streams with an encoding (stdout errors=strict, stderr backslashreplace); "printed" = what reached the byte
+stream.  The stdout encoding is utf-8 everywhere and, for family T, also ascii and cp1252 (thorough: latin-1, utf-16).
 
 Oracle: outcome is a list of results or an exception e with isinstance(e, ExtractionError); the call returns within the soft
-budget (20 s; normal <= 50 ms) - a hard kill identifies cases that cannot even be interrupted; CLI: (exit 0, stdout non-empty,
+budget (20 s CPU; normal <= 50 ms) and is never found waiting (10 s of which more than half neither running nor runnable by the
+scheduler's accounting: blocked on something nobody releases; the worker is then replaced) - a hard kill identifies cases that
+cannot even be interrupted; CLI: (exit 0, stdout non-empty,
 parses) or (exit 1, stdout empty, stderr exactly one line).  One defect = one shape: failures are grouped by
 (seam+extractor, clause incl. exception type, operator kind).
 """
@@ -39,7 +52,9 @@ import tempfile
 import time
 
 from verif.mc import pool as P
+from verif.props import c01_pdfenc as E
 from verif.props import c01_seeds as S
+from verif.props import c01_text as T
 
 LEVEL = "exploration"
 SOFT_BUDGET = 20.0
@@ -48,9 +63,15 @@ NOTE_EVERY = 16
 LATTICE = [0, 1, 65535, 2 ** 32 - 1]
 OVW = ["00", "ff", "x01", "x80"]
 SEAMS = ["direct", "read_file", "zipmember", "eml", "cli", "cli-json", "cli-json-unit"]
+CLI_ARGV = {"cli": [], "cli-json": ["--json"], "cli-json-unit": ["--json-unit"], "cli-json-binary": ["--json", "--binary"],
+            "cli-json-unit-binary": ["--json-unit", "--binary"], "cli-binary": ["--binary"]}
+CLI_MODES = list(CLI_ARGV)
+STDOUT_DEFAULT = "utf-8"
+STDOUTS_QUICK = ["utf-8", "ascii", "cp1252"]
+STDOUTS_THOROUGH = STDOUTS_QUICK + ["latin-1", "utf-16"]
 VIA = {"read_file": ["tempfile", "read_file"], "zipmember": ["zip-member", "read_archive"],
-       "eml": ["eml-attachment", "read_eml", "iterate_supported_attachments"], "cli": ["tempfile", "cli.main"],
-       "cli-json": ["tempfile", "cli.main", "--json"], "cli-json-unit": ["tempfile", "cli.main", "--json-unit"]}
+       "eml": ["eml-attachment", "read_eml", "iterate_supported_attachments"]}
+VIA.update({m: ["tempfile", "cli.main"] + a for m, a in CLI_ARGV.items()})
 EXTRACTOR_KEYS = list(S.EXTRACTORS)
 CFB_HEADER_FIELDS = [(0x18, 2), (0x1A, 2), (0x1C, 2), (0x20, 2), (0x28, 4), (0x2C, 4), (0x30, 4), (0x38, 4), (0x3C, 4), (0x40, 4),
                      (0x44, 4), (0x48, 4), (0x4C, 4)]
@@ -63,11 +84,15 @@ def src_bytes(src: str) -> bytes:
     kind, name = src.split(":", 1)
     if kind == "G":
         return S.build_g()[name]["data"]
+    if kind == "T":
+        return T.document(*name.split("/"))
     return S.fixture_bytes(name)
 
 
 def src_own(src: str) -> str:
     kind, name = src.split(":", 1)
+    if kind == "T":
+        return T.CARRIERS[name.split("/")[0]][1]
     return S.build_g()[name]["to"] if kind == "G" else S.fixture_to(name)
 
 
@@ -75,6 +100,8 @@ def src_ext(src: str) -> str:
     kind, name = src.split(":", 1)
     if kind == "G":
         return S.path_ext(name)
+    if kind == "T":
+        return T.CARRIERS[name.split("/")[0]][0]
     low = name.lower()
     return "tar.gz" if low.endswith(".tar.gz") else low.rsplit(".", 1)[1]
 
@@ -268,6 +295,8 @@ def materialize(case) -> bytes:
         else:
             o[op[1]] = op[2]
         return S.sevenz.sevenz(ms, o)
+    if kind == "pdfenc":
+        return E.build(s["pdfenc"], op[1:])
     if kind == "mboxvar":
         o = {"separator": op[1]}
         if op[2]:
@@ -340,7 +369,10 @@ def groups(tier: str) -> list:
         out.append(f"aware:G:{name}")
     for rel in S.fixtures():
         out.append(f"fix:{rel}")
-    out += ["cross", "splice", "seams:G", "seams:F"]
+    out += ["cross", "splice", "seams:G", "seams:F", "text", "climodes"]
+    only = os.environ.get("VERIF_C01_ONLY")         # development aid: run some case groups only (reported in the coverage)
+    if only:
+        out = [x for x in out if x.startswith(tuple(only.split(",")))]
     return out
 
 
@@ -426,6 +458,10 @@ def _aware_ops(name: str, tier: str) -> list:
         for sep in ("standard", "no-blank-line", "crlf"):
             for flb in (None, "escaped", "unescaped"):
                 ops.append(["mboxvar", sep, flb])
+    if "pdfenc" in s:
+        ops += [["pdfenc", d] for d in E.deviations(s["pdfenc"])]
+        if not quick:               # kept last: the singles' positions in the list (hence the seam sub-grids) are tier independent
+            ops += [["pdfenc", a, b] for a, b in E.deviation_pairs(s["pdfenc"])]
     return ops
 
 
@@ -484,7 +520,8 @@ def group_cases(tier: str, group: str) -> list:
                 n = len(s["data"])
                 qset = {json.dumps(op) for op in _aware_ops(name, "quick")} if quick else None
                 aware = [op for k, op in enumerate(_aware_ops(name, "thorough")) if k % (aq if quick else at) == 0
-                         and (qset is None or json.dumps(op) in qset)]          # quick picks a subset of what thorough picks
+                         and (qset is None or json.dumps(op) in qset)           # quick picks a subset of what thorough picks
+                         and not (op[0] == "pdfenc" and len(op) > 2)]           # two-field forgeries: direct seam only
                 ops = [["id"]] + _byte_ops(n, range(0, n, bq if quick else bt)) + aware
                 out += [{"src": f"G:{name}", "to": s["to"], "seam": seam, "via": VIA[seam], "op": op} for op in ops]
     elif group == "seams:F":
@@ -498,6 +535,28 @@ def group_cases(tier: str, group: str) -> list:
                 if seam in ("read_file", "cli", "cli-json"):
                     ops += [["trunc", o] for o in _even_offsets(n, 2 if quick else 4)]
                 out += [{"src": f"F:{rel}", "to": to, "seam": seam, "via": VIA[seam], "op": op} for op in ops]
+    elif group == "text":
+        # family T: one character class in the extracted text x how it travels; every CLI mode x every stdout encoding
+        stds = STDOUTS_QUICK if quick else STDOUTS_THOROUGH
+        for nm in T.names():
+            src = f"T:{nm}"
+            to = src_own(src)
+            out.append({"src": src, "to": to, "seam": "direct", "op": ["id"]})
+            out += [{"src": src, "to": to, "seam": seam, "via": VIA[seam], "op": ["id"]} for seam in ("read_file", "zipmember", "eml")]
+            for mode in CLI_MODES:
+                if mode == "cli-binary":
+                    continue
+                encs = stds if (not quick or not mode.endswith("-binary")) else [STDOUT_DEFAULT]
+                out += [{"src": src, "to": to, "seam": mode, "via": VIA[mode], "stdout": enc, "op": ["id"]} for enc in encs]
+            if not quick:
+                out += [{"src": src, "to": x, "seam": "direct", "op": ["id"]} for x in EXTRACTOR_KEYS if x != to]
+    elif group == "climodes":
+        # the option combinations of the CLI that the seam sub-grids do not use, on every unmutated seed
+        srcs = [f"G:{n}" for n in g] + ([] if quick else [f"F:{r}" for r in S.fixtures()])
+        for src in srcs:
+            to = src_own(src)
+            out += [{"src": src, "to": to, "seam": mode, "via": VIA[mode], "op": ["id"]}
+                    for mode in ("cli-json-binary", "cli-json-unit-binary", "cli-binary")]
     else:
         raise KeyError(group)
     _MEMO[key] = out
@@ -526,7 +585,10 @@ def _extractor(key: str):
 
 
 def _fmt(case) -> str:
-    return case["to"] if case["seam"] == "direct" else f"{case['seam']}>{case['to']}"
+    if case["seam"] == "direct":
+        return case["to"]
+    enc = case.get("stdout", STDOUT_DEFAULT)
+    return f"{case['seam']}>{case['to']}" if enc == STDOUT_DEFAULT else f"{case['seam']}[{enc}]>{case['to']}"
 
 
 def _short(filename: str) -> str:
@@ -561,13 +623,19 @@ class _Budget:
     The stack is sampled every TICK wall seconds after PROBE seconds, so that a breach is reported with the function the call is
     looping in (deepest frame common to all samples), and every 4 s a progress note tells the master that the worker can still be
     interrupted.  If the loop function has already been confirmed - for the same extractor, by a case that ran the full budget -
-    further cases looping there are cut after CUT_CPU seconds and attributed to that confirmed hang."""
-    PROBE, TICK, CUT_CPU, CUT_SAMPLES, WALL_IDLE = 1.0, 0.25, 1.0, 4, 60.0
+    further cases looping there are cut after CUT_CPU seconds and attributed to that confirmed hang.
+    A call that WAITS instead of computing (a lock nobody releases) is told apart from a call that is merely starved by a loaded
+    machine with the scheduler's own accounting (/proc/thread-self/schedstat: time on a CPU, time runnable but waiting for one): once
+    BLOCK_WALL seconds have passed, the thread spent more than half of them neither running nor runnable and the last BLOCK_SAME
+    stack samples (4 s) are one and the same stack, it is blocked.  The
+    library starts no threads and never sleeps, so a correct call is runnable all the time.  Such a verdict leaves the worker process
+    suspect (whatever is held stays held): it is marked tainted and replaced before it runs another case (see _recycle_if_tainted)."""
+    PROBE, TICK, CUT_CPU, CUT_SAMPLES, WALL_IDLE, BLOCK_WALL, BLOCK_SHARE, BLOCK_SAME = 1.0, 0.25, 1.0, 4, 60.0, 10.0, 0.5, 16
 
     def __init__(self, limit: float, to: str, early: bool):
         self.limit, self.to, self.early = limit, to, early
         self.samples: list = []
-        self.cut = self.deferred = self.claimer = self.breached = False
+        self.cut = self.deferred = self.claimer = self.breached = self.blocked = False
         self.swallowed = 0
         self.claimed = None
         self.reason = ""
@@ -599,9 +667,18 @@ class _Budget:
             self.reason = f"{cpu:.0f} s of CPU time"
             self.breached = True
             raise P.CaseTimeout()
-        if wall >= self.WALL_IDLE and cpu < 0.05 * wall:
+        if wall >= self.BLOCK_WALL and self.s0 is not None:
+            s1 = _schedstat()
+            if s1 is not None:
+                asleep = wall - (s1 - self.s0)
+                if asleep >= self.BLOCK_SHARE * wall and all(x == self.samples[-1] for x in self.samples[-self.BLOCK_SAME:]):
+                    self.reason = (f"{wall:.0f} s of wall time of which {asleep:.0f} s neither running nor runnable: blocked "
+                                   f"({cpu:.1f} s CPU)")
+                    self.breached = self.blocked = True
+                    raise P.CaseTimeout()
+        if self.s0 is None and wall >= self.WALL_IDLE and cpu < 0.05 * wall:      # kernels without schedstat: the coarse rule
             self.reason = f"{wall:.0f} s of wall time, blocked ({cpu:.1f} s CPU)"
-            self.breached = True
+            self.breached = self.blocked = True
             raise P.CaseTimeout()
         if self.early and cpu >= self.CUT_CPU and len(self.samples) >= self.CUT_SAMPLES:
             site = self.site()
@@ -633,6 +710,7 @@ class _Budget:
         import signal
         self.t0 = time.monotonic()
         self.c0 = time.process_time()
+        self.s0 = _schedstat()
         self.mark = _TMP.get("mark")
         signal.signal(signal.SIGALRM, self._tick)
         signal.setitimer(signal.ITIMER_REAL, self.PROBE, self.TICK)
@@ -642,6 +720,47 @@ class _Budget:
         import signal
         signal.setitimer(signal.ITIMER_REAL, 0)
         return False
+
+
+def _schedstat():
+    """seconds this thread has spent running + runnable (waiting for a CPU) so far, or None where the kernel does not say"""
+    try:
+        with open("/proc/thread-self/schedstat") as f:
+            run, wait = f.read().split()[:2]
+        return (int(run) + int(wait)) / 1e9
+    except (OSError, ValueError):
+        return None
+
+
+def _recycle_if_tainted() -> None:
+    """A worker in which a call was found blocked is not used again: whatever that call waited for is still held in this process,
+    and every later case that needs it would block too (and be blamed for it).  The worker tells the master and leaves; the master
+    hands the task to a fresh process (see run() and _map_fresh)."""
+    if _TMP.get("tainted"):
+        d = _TMP.get("dir")
+        if d and _TMP.get("pid") == os.getpid():
+            shutil.rmtree(d, ignore_errors=True)
+        P.note(RECYCLE)
+        os._exit(0)
+
+
+RECYCLE = "recycle:tainted-worker"
+
+
+def _recycled(r) -> bool:
+    return r[0] == "killed" and r[1] == "worker died" and r[2] == RECYCLE
+
+
+def _map_fresh(pool, func: str, args: list) -> list:
+    """pool.map, re-submitting tasks that met a tainted worker (each such meeting removes one tainted worker)"""
+    res = pool.map("verif.props.C01", func, args, hard_timeout=HARD_TIMEOUT)
+    for _ in range(4 * pool.n + 4):
+        again = [i for i, r in enumerate(res) if _recycled(r)]
+        if not again:
+            break
+        for i, r in zip(again, pool.map("verif.props.C01", func, [args[i] for i in again], hard_timeout=HARD_TIMEOUT)):
+            res[i] = r
+    return res
 
 
 def _confirm_path_for(base: str, to: str, site: str):
@@ -720,11 +839,19 @@ def run_seam(case, data: bytes, ext: str, wrapped):
         path = os.path.join(_tmpdir(), "case." + ext)
         with open(path, "wb") as f:
             f.write(data)
-        argv = [path] if seam == "cli" else (["--json", path] if seam == "cli-json" else ["--json-unit", path])
-        so, se = io.StringIO(), io.StringIO()
+        argv = CLI_ARGV[seam] + [path]
+        json_mode = "--json" in argv or "--json-unit" in argv
+        # stdout / stderr as the interpreter sets them up: text layers over byte streams, stdout strict, stderr backslashreplace.
+        # What counts as "printed" is what reached the byte stream.
+        enc = case.get("stdout", STDOUT_DEFAULT)
+        bo, be = io.BytesIO(), io.BytesIO()
+        so = io.TextIOWrapper(bo, encoding=enc, errors="strict", newline="\n")
+        se = io.TextIOWrapper(be, encoding=enc, errors="backslashreplace", newline="\n")
         try:
             with contextlib.redirect_stdout(so), contextlib.redirect_stderr(se):
                 rc = cli.main(argv)
+            so.flush()
+            se.flush()
         except P.CaseTimeout:
             raise
         except BaseException as e:  # noqa
@@ -733,12 +860,12 @@ def run_seam(case, data: bytes, ext: str, wrapped):
         finally:
             with contextlib.suppress(OSError):
                 os.unlink(path)
-        out, err = so.getvalue(), se.getvalue()
+        out, err = bo.getvalue().decode(enc, "replace"), be.getvalue().decode(enc, "replace")
         errn = err.replace(path, "<path>")
         if rc == 0:
             if not out:
                 fails.append(("cli-success-empty-stdout", "exit 0 but nothing on stdout", None))
-            elif seam != "cli":
+            elif json_mode:
                 try:
                     json.loads(out)
                 except ValueError as e:
@@ -746,7 +873,7 @@ def run_seam(case, data: bytes, ext: str, wrapped):
             return "cli-exit0", fails
         if rc == 1:
             if out:
-                fails.append(("cli-failure-stdout", f"exit 1 but stdout is not empty ({len(out)} chars: {out[:100]!r}); stderr={errn[:200]!r}", None))
+                fails.append(("cli-failure-stdout", f"exit 1 but stdout ({enc}) is not empty ({len(out)} chars: {out[:100]!r}); stderr={errn[:200]!r}", None))
             lines = err.split("\n")
             if not (len(lines) == 2 and lines[0] and lines[1] == ""):
                 fails.append(("cli-failure-stderr-lines", f"exit 1 with {err.count(chr(10))} line break(s) on stderr instead of exactly one line: {errn[:300]!r}", None))
@@ -808,6 +935,8 @@ def evaluate(case, early: bool = False):
         if b.claimed:
             _unclaim(case["to"], b.claimed)
     dt = time.process_time() - c0
+    if b.blocked:
+        _TMP["tainted"] = True
     if b.breached or b.cut or b.deferred or oc is None:
         # once the budget is crossed the verdict stands, whatever the call does with the interruption (olefile, for one, catches
         # BaseException per property and carries on)
@@ -830,6 +959,7 @@ def _cut_msg(reason, nsamples, site, nbytes):
 
 
 def _eval_one(case):
+    _recycle_if_tainted()
     oc, fails, dt = evaluate(case, early=False)
     return {"oc": oc, "fails": fails, "dt": dt}
 
@@ -856,8 +986,8 @@ def reexec(fmt, case):
     try:
         pool = _rx_pool()
     except Exception:  # daemonic caller: run inline
-        return [(c, m) for c, m, _ in _eval_one(case)["fails"]]
-    out = _rx_result(pool.map("verif.props.C01", "_eval_one", [case], hard_timeout=HARD_TIMEOUT)[0])
+        return [(c, m) for c, m, _ in evaluate(case, early=False)[1]]
+    out = _rx_result(_map_fresh(pool, "_eval_one", [case])[0])
     if any(c == "hang" for c, _ in out):
         _HANG_CACHE[key] = out
     return out
@@ -890,7 +1020,7 @@ def _confirm_representatives(pool, fails):
     cases = [{k: v for k, v in c.items() if k != "site"} for _, c in reps.values()]
     if not cases:
         return 0
-    res = pool.map("verif.props.C01", "_eval_one", cases + cases, hard_timeout=HARD_TIMEOUT)
+    res = _map_fresh(pool, "_eval_one", cases + cases)
     for i, c in enumerate(cases):
         try:
             a, b = _rx_result(res[i]), _rx_result(res[i + len(cases)])
@@ -912,6 +1042,8 @@ def op_kind(case) -> str:
         return "zforge:" + case["op"][2]
     if k == "7z":
         return "7z:" + case["op"][1]
+    if k == "pdfenc":
+        return "pdfenc:" + "+".join(d[0] for d in case["op"][1:])
     if k in ("head", "headpad"):
         return "splice"
     if k == "id":
@@ -946,6 +1078,9 @@ def shrinks(case):
         for name, s in S.build_g().items():
             if family(s["data"]) == fam:
                 yield dict(case, src=f"G:{name}")
+    if case["op"][0] == "pdfenc" and len(case["op"]) == 3:
+        yield dict(case, op=["pdfenc", case["op"][1]])
+        yield dict(case, op=["pdfenc", case["op"][2]])
     if case["op"][0] not in ("id", "head", "headpad") and case["op"] != ["trunc", 0] and case["src"].startswith("G:"):
         yield dict(case, op=["trunc", 0])
 
@@ -961,6 +1096,7 @@ def _failure(case, clause, msg, site):
 
 def _part(arg):
     tier, group, k, n, start, limit = arg["tier"], arg["group"], arg["k"], arg["n"], arg["start"], arg.get("limit")
+    _recycle_if_tainted()
     _TMP["round"] = arg.get("round", 0)
     cases = group_cases(tier, group)
     idx = [i for i in range(k, len(cases), n) if i >= start]
@@ -973,7 +1109,11 @@ def _part(arg):
     slow = []
     deferred = []
     since = NOTE_EVERY
-    for i in idx:
+    resume = None
+    for pos, i in enumerate(idx):
+        if _TMP.get("tainted"):
+            resume = {"start": i, "limit": len(idx) - pos}       # the rest of the partition goes to a fresh worker
+            break
         if since >= NOTE_EVERY:
             P.note(i)
             _TMP["mark"] = i
@@ -1000,7 +1140,7 @@ def _part(arg):
             since = NOTE_EVERY          # re-arm the liveness clock right after a slow case
         if ev in (2, 40) and len(samples) < 2:
             samples.append({"case": case, "outcome": oc})
-    return {"ev": ev, "fails": fails, "outcomes": outcomes, "samples": samples, "slow": slow, "deferred": deferred}
+    return {"ev": ev, "fails": fails, "outcomes": outcomes, "samples": samples, "slow": slow, "deferred": deferred, "resume": resume}
 
 
 def _partitions(tier, group):
@@ -1028,7 +1168,7 @@ def run(ctx):
     ev = 0
     fails, herr, samples, slow = [], [], [], []
     outcomes: dict = {}
-    kills = 0
+    kills = recycled = 0
     try:
         with P.Pool(ctx.ncpu, env={"VERIF_C01_TMP": base}) as pool:
             todo = tasks
@@ -1055,6 +1195,12 @@ def run(ctx):
                                 outcomes[key] = outcomes.get(key, 0) + 1
                             else:
                                 nxt.append(dict(t, start=i, limit=1, round=rnd))
+                        if r.get("resume"):
+                            nxt.append(dict(t, round=rnd, **r["resume"]))
+                            recycled += 1
+                        continue
+                    if _recycled((st, r, note)):
+                        nxt.append(dict(t, round=rnd))           # nothing of the task was run: same task, fresh worker
                         continue
                     if st == "error":
                         herr.append(f"partition {t} failed: {str(r)[-800:]}")
@@ -1108,19 +1254,34 @@ def run(ctx):
     q = ctx.quick
     cov = {"evaluations": ev, "enumerated": total, "distinct_nontrivial": len(outcomes), "outcome_classes": by_class,
            "cases_per_operator_family": grp_sizes, "seeds_G": len(S.build_g()), "seeds_F": len(S.fixtures()), "extractors": len(EXTRACTOR_KEYS),
-           "hard_kills": kills, "hang_shapes_reconfirmed_twice": confirmed_reps, "slowest_cases": [{"seconds": s_, "case": c} for s_, c in slow[:5]],
+           "hard_kills": kills, "workers_replaced_after_a_blocked_call": recycled, "hang_shapes_reconfirmed_twice": confirmed_reps, "slowest_cases": [{"seconds": s_, "case": c} for s_, c in slow[:5]],
            "rule": "every single-deviation mutant of every seed: G = %d generated documents (every %sbyte offset x {truncate, 00, FF, ^01, ^80, "
                    "delete}; per ZIP member drop / empty / cut at every %stag boundary / %d hostile XML bodies / forged header fields; CFB "
                    "forged header, FAT, directory and property-set fields; every BIFF / PPT record length field; every RTF brace; every "
-                   "JPEG / PNG segment length; forged tar / 7z fields; mbox separator variants), F = %d fixtures (truncate / overwrite at %d "
+                   "JPEG / PNG segment length; forged tar / 7z fields; mbox separator variants; for the 3 encrypted PDFs every %s of "
+                   "the %d forged encryption-dictionary / ciphertext values), F = %d fixtures (truncate / overwrite at %d "
                    "evenly spaced offsets), every seed unmutated and every G seed's head splices to each of the 21 extractors, and a stated "
-                   "sub-grid through read_file, ZIP member, e-mail attachment and the three CLI modes; executed on the real extractors in "
+                   "sub-grid through read_file, ZIP member, e-mail attachment and the three CLI modes; T = %d documents (%d carriers x %d "
+                   "character classes, expressible ones) through the extractor, read_file, ZIP member, e-mail attachment and every CLI "
+                   "mode x stdout encoding %s%s; the remaining CLI option combinations (--binary) on every unmutated G seed%s; "
+                   "executed on the real extractors in "
                    "sandboxed workers; distinct_nontrivial = distinct (seam>extractor, operator kind, outcome class) triples observed"
                    % (len(S.build_g()), "8th " if q else "", "4th " if q else "", len(S.HOSTILE_QUICK) if q else len(S.hostile_bodies()),
-                      len(S.fixtures()), 16 if q else 64),
-           "samples": samples, "exhaustive": True, "bounds": {"tier": ctx.tier, "soft_budget_s": SOFT_BUDGET, "hard_timeout_s": HARD_TIMEOUT}}
+                      "one" if q else "one and every two (in different fields)", len(E.deviations("aes")),
+                      len(S.fixtures()), 16 if q else 64, len(T.names()), len(T.CARRIERS), len(T.CHARS),
+                      STDOUTS_QUICK if q else STDOUTS_THOROUGH, "" if q else ", and to each of the other 20 extractors",
+                      "" if q else " and fixture"),
+           "samples": samples, "exhaustive": True,
+           "bounds": {"tier": ctx.tier, "soft_budget_s": SOFT_BUDGET, "hard_timeout_s": HARD_TIMEOUT, "blocked_after_wall_s": _Budget.BLOCK_WALL,
+                      "stdout_encodings": STDOUTS_QUICK if q else STDOUTS_THOROUGH, "cli_modes": CLI_MODES,
+                      "text_character_classes": list(T.CHARS), "text_carriers": list(T.CARRIERS),
+                      "pdfenc_seeds": list(E.SEEDS), "pdfenc_fields": {k: len(v) for k, v in E.FIELDS.items()},
+                      "pdfenc_deviations_per_case": 1 if q else 2}}
     if ev != total:
         cov["skipped_inexpressible"] = total - ev
+    if os.environ.get("VERIF_C01_ONLY"):
+        cov["restricted_to_groups"] = os.environ["VERIF_C01_ONLY"]
+        cov["exhaustive"] = False
     return {"coverage": cov, "failures": fails, "harness_errors": herr, "assumptions": ASSUMPTIONS}
 
 
@@ -1131,6 +1292,17 @@ ASSUMPTIONS = [
     "family, e.g. 'encrypted' for a corrupt file, is not judged by C01)",
     "log records and Python warnings are switched off in the workers: only what cli.main itself writes to stdout / stderr is judged",
     "CLI text mode: any non-empty stdout counts as 'prints the result'; JSON modes: stdout must be accepted by json.loads (NaN allowed)",
+    "the statement quantifies over input files, not over terminals: the CLI contract is checked with the stdout the interpreter gives a "
+    "process - a text layer over a byte stream, errors='strict' - under utf-8 (default of every current platform) and, for the "
+    "documents of family T, under ascii (C / POSIX locale without coercion, PYTHONIOENCODING) and cp1252 (redirected output on "
+    "Windows); 'prints nothing on stdout' is judged on the bytes that reached the stream. Failing to print a result that the encoding "
+    "cannot express is a legitimate exit 1; printing half of it first is not",
+    "a lone surrogate in the extracted text (HTML / e-mail parts declared utf-7 or unicode_escape return one on the unchanged tree) is "
+    "C04's concern; C01 only requires that the CLI then either prints a whole result or nothing",
+    "blocked = the scheduler's per-thread accounting (/proc/thread-self/schedstat) shows the calling thread neither running nor "
+    "runnable for more than half of >= 10 s: independent of machine load (a starved thread is runnable); the library starts no "
+    "threads and never sleeps. Kernels without schedstat: 60 s wall with < 5 % CPU. After such a verdict the worker process is "
+    "replaced, so that what the blocked call waited for cannot make later, innocent cases block",
     "whether an accepted mutant's content is right is not judged (C02..C14); exit 1 for an intact file is not a C01 failure either",
     "termination: budget of 20 s CPU time of the worker per call (wall time would make the verdict depend on the load of the machine; a "
     "call that blocks without computing is cut after 60 s wall; a call that cannot be interrupted is killed after 90 s without a "
